@@ -8,7 +8,11 @@ EXTENDS Cluster
 CONSTANTS MaxLen,     \* rows per peer list
           WithBad,    \* lists may contain invalid rows
           WithDup,    \* lists may report a host id twice (at two addresses)
-          MaxLevel    \* depth bound of the exploration
+          MaxLevel    \* histories of at most MaxLevel - 1 steps are explored
+
+\* (a step counter in the state, not TLCGet("level"): with several workers the level of a state
+\* is not its breadth-first depth and a bound on it would cut the exploration at random)
+VARIABLE steps
 
 \* the ids in a fixed order (canonical row order; ids are interchangeable)
 IdSeq == <<"i1", "i2", "i3", "i4", "i5">>
@@ -28,11 +32,11 @@ Batches ==
   \cup {<<Ev("UP", a), Ev("DOWN", a)>> : a \in AllAddrs} \cup {<<Ev("DOWN", a), Ev("UP", a)>> : a \in AllAddrs}
   \cup {<<Ev("NEW_NODE", a), Ev(k, a)>> : k \in {"UP", "DOWN"}, a \in AllAddrs}
 
-Init == InitWith(<<>>)
+Init == InitWith(<<>>) /\ steps = 0
 
 \* One step = one driver-visible action; what the cluster reports may change together with the
 \* actions that make the driver look at it (refresh, topology event, control reconnection).
-Next ==
+Step ==
   \/ \E l \in Lists : Refresh(l, "none")
   \/ \E f \in {"local", "peers"} : \E l \in {truth, <<>>} : Refresh(l, f)
   \/ \E b \in Batches : Events(truth, b)
@@ -46,6 +50,7 @@ Next ==
   \/ \E l \in Lists : NodeRecover(l, C0addr)
   \/ \E l \in Lists : ControlLost(l)
 
-Spec == Init /\ [][Next]_vars
-Bounded == TLCGet("level") <= MaxLevel
+Next == steps < MaxLevel - 1 /\ steps' = steps + 1 /\ Step
+
+Spec == Init /\ [][Next]_<<vars, steps>>
 =============================================================================
